@@ -222,7 +222,7 @@ def _eecc_call(net, ranks, nedges):
 # got there): the two mutators of Network, the `G` setter with a prebuilt nx.Graph (how the library hands graphs
 # around), mutation through the `G` getter (how the library's own EdgeListToNetwork fills a Network), and
 # re-assignment of G on an object that already holds other contents
-BUILD_PATHS = ["aef", "ae", "set", "setc", "get", "gete", "reset"]
+BUILD_PATHS = ["aef", "ae", "set", "setc", "get", "gete", "reset", "aefi", "aefg", "aefl"]
 JUNK = 2000003
 
 
@@ -261,6 +261,12 @@ def _feed(net, chunk, path):
     stays (for the paths that assign a new graph it is copied into the new graph)"""
     if path == "aef":
         net.add_edges_from(chunk)
+    elif path == "aefi":
+        net.add_edges_from(iter(chunk))                  # a one-shot iterator
+    elif path == "aefg":
+        net.add_edges_from((a, b) for a, b in chunk)     # a generator
+    elif path == "aefl":
+        net.add_edges_from([list(e) for e in chunk])     # edges as lists, in a list
     elif path == "ae":
         for e in chunk:
             net.add_edge(e)
